@@ -294,7 +294,9 @@ impl FileReader for IOFileReader {
         };
 
         // store full path to file
-        let uuid = uuid::Uuid::new_v4();
+        // Files are numbered in the order they are read (0 is "no file"), so
+        // that ordering diagnostics by file gives the same result every run.
+        let uuid = uuid::Uuid::from_u128(self.files.len() as u128 + 1);
         self.base_file.get_or_insert(uuid);
         self.files.insert(uuid, (path.clone(), file.clone()));
         if let Some(parent) = parent_file {
